@@ -354,7 +354,7 @@ func c06Malformed(c *fw.Case, n int) {
 			class = "length-varint-not-minimal"
 		case 11:
 			// ten-byte varint code
-			bad = oracle.B64(append(append([]byte{0x80 | byte(code), 0x80, 0x80, 0x80, 0x80, 0x80, 0x80, 0x80, 0x80, 0x00}, raw[1:]...)))
+			bad = oracle.B64(append([]byte{0x80 | byte(code), 0x80, 0x80, 0x80, 0x80, 0x80, 0x80, 0x80, 0x80, 0x00}, raw[1:]...))
 			class = "code-varint-ten-bytes"
 		case 0:
 			pos := r.Intn(len(good))
